@@ -1353,6 +1353,8 @@ impl DhtCoreEngine {
     }
 
     async fn release_slots(&self, ip: Option<IpAddr>, region: Option<GeographicRegion>) {
+        #[cfg(feature = "verif-hooks")]
+        crate::verif_hooks::sched_point("core_engine:release_slots").await;
         if let Some(ip) = ip {
             let mut enforcer = self.ip_diversity_enforcer.write().await;
             if let Ok(analysis) = enforcer.analyze_unified(ip) {
@@ -1369,6 +1371,8 @@ impl DhtCoreEngine {
 
     /// Give back the diversity slots a routing-table entry took when it was admitted
     async fn release_admitted_slots(&self, node_id: &NodeId) {
+        #[cfg(feature = "verif-hooks")]
+        crate::verif_hooks::sched_point("core_engine:release_admitted_slots").await;
         let slots = self.admitted_slots.write().await.remove(node_id);
         if let Some((ip, region)) = slots {
             self.release_slots(ip, region).await;
